@@ -234,6 +234,31 @@ pub fn scenes_2d() -> Vec<Scene> {
         b.mul(x, y)
     }));
     v.push(mk("sphere slice (depends on z)", &|b| b.sphere([0.0, 0.1, 0.0], 0.8)));
+    // shapes whose INTERVAL evaluation over some tiles is NaN (division by an
+    // interval containing zero, sqrt reaching below zero) although pixels in
+    // those tiles have clearly negative values
+    v.push(mk("metaballs 1 - sum r^2/|p-c|^2", &|b| {
+        let ball = |b: &mut PB, cx: f32, cy: f32, r2: f32| {
+            let (x, y) = (b.x(), b.y());
+            let dx = b.subc(x, cx);
+            let dy = b.subc(y, cy);
+            let a = b.un(U::Square, dx);
+            let c = b.un(U::Square, dy);
+            let d = b.add(a, c);
+            let k = b.c(r2);
+            b.bin(B::Div, k, d)
+        };
+        let m1 = ball(b, -0.4, 0.03, 0.09);
+        let m2 = ball(b, 0.31, 0.22, 0.0625);
+        let sum = b.add(m1, m2);
+        let one = b.c(1.0);
+        b.sub(one, sum)
+    }));
+    v.push(mk("sqrt(x) - 0.5 (strip 0 <= x < 0.25)", &|b| {
+        let x = b.x();
+        let q = b.un(U::Sqrt, x);
+        b.subc(q, 0.5)
+    }));
     let mut s = mk("circle with free radius", &|b| {
         let (x, y) = (b.x(), b.y());
         let a = b.un(U::Square, x);
@@ -287,6 +312,28 @@ pub fn scenes_3d() -> Vec<Scene> {
     }));
     v.push(mk("empty", &|b| b.c(1.0)));
     v.push(mk("full", &|b| b.c(-1.0)));
+    // interval evaluation over tiles containing a centre is NaN (division by
+    // an interval containing zero) although voxels there are clearly inside
+    v.push(mk("3D metaballs 1 - sum r^2/|p-c|^2", &|b| {
+        let ball = |b: &mut PB, c: [f32; 3], r2: f32| {
+            let (x, y, z) = (b.x(), b.y(), b.z());
+            let dx = b.subc(x, c[0]);
+            let dy = b.subc(y, c[1]);
+            let dz = b.subc(z, c[2]);
+            let a = b.un(U::Square, dx);
+            let e = b.un(U::Square, dy);
+            let f = b.un(U::Square, dz);
+            let d = b.add(a, e);
+            let d = b.add(d, f);
+            let k = b.c(r2);
+            b.bin(B::Div, k, d)
+        };
+        let m1 = ball(b, [-0.4, 0.03, 0.1], 0.09);
+        let m2 = ball(b, [0.31, 0.22, -0.3], 0.0625);
+        let sum = b.add(m1, m2);
+        let one = b.c(1.0);
+        b.sub(one, sum)
+    }));
     let mut s = mk("sphere with free radius", &|b| {
         let (x, y, z) = (b.x(), b.y(), b.z());
         let a = b.un(U::Square, x);
